@@ -18,6 +18,17 @@ def _reach(ctx: Ctx, roots: List[FuncInfo]) -> List[FuncInfo]:
     return [f for f in ctx.cg.reachable(roots) if f.module.name.startswith('penman')]
 
 
+def _lastgroup_is_none(ctx: Ctx, f, raise_node) -> bool:
+    """The raise is guarded by `<m.lastgroup> is None` (possibly through a local): R8a shows that cannot happen."""
+    from ..resolve import facts_ex
+    for fact, pol in facts_ex(ctx, f, raise_node):
+        if pol and fact.endswith(' is None') and '.lastgroup' in fact:
+            return True
+        if not pol and fact.endswith(' is not None') and '.lastgroup' in fact:
+            return True
+    return False
+
+
 @rule('R18', 'only DecodeError can be raised explicitly on the parse paths; implicit raise sites are inventoried')
 def r18(ctx: Ctx) -> RuleReport:
     rep = RuleReport('R18', r18.title, floor=6)
@@ -64,8 +75,8 @@ def r18(ctx: Ctx) -> RuleReport:
                 cls = cls or norm(n.exc)
             if cls == 'DecodeError':
                 rep.ok(key, f.loc(n), 'the documented decode error')
-            elif (f.fq, cls) in discharged:
-                rep.exception(key, f.loc(n), discharged[(f.fq, cls)])
+            elif (f.fq, cls) in discharged or (cls == 'ValueError' and f.module.name == 'penman._lexer' and _lastgroup_is_none(ctx, f, n)):
+                rep.exception(key, f.loc(n), discharged.get((f.fq, cls), discharged[('penman._lexer:_lex', 'ValueError')]))
             else:
                 rep.violation(key, f.loc(n), f'{cls} can be raised on a parse path: callers are promised DecodeError only')
         # implicit sites
@@ -182,7 +193,9 @@ def r37(ctx: Ctx) -> RuleReport:
         for n in walk_local(f.node):
             if isinstance(n, ast.Call) and isinstance(n.func, ast.Attribute) and n.func.attr in ('finditer', 'scanner'):
                 scans.append(f.fq)
-    rep.add('token scanning happens in one function', lex.loc(), 'ok' if set(scans) == {'penman._lexer:_lex'} else 'undecided', str(sorted(set(scans))))
+    lexer_local = {f.fq for f in ctx.cg.reachable([ctx.repo.func('penman._lexer', '_lex')]) if f.module.name == 'penman._lexer'}
+    rep.add('token scanning happens in one place (the lexer generator and its helpers)', lex.loc(),
+            'ok' if scans and set(scans) <= lexer_local and len(set(scans)) == 1 else 'undecided', str(sorted(set(scans))))
     # the text handed to lex is the caller's argument itself (no rewriting before lexing)
     for m, q in (('penman._parse', 'parse'), ('penman._parse', 'iterparse'), ('penman._parse', 'parse_triples')):
         fi = ctx.repo.func(m, q)
